@@ -164,7 +164,7 @@ func c10Run(sc c10Scenario, prefix []int, sigs []string) (*vsched.Sched, schedVe
 				i := i
 				vsched.Go("harness.peer-alive", func() {
 					answered := 0
-					for t := time.Duration(0); t < horizon; t += 2 * time.Second {
+					for t := time.Duration(0); ; t += 2 * time.Second { // until the execution ends (the main thread returns)
 						vtime.Sleep(2 * time.Second)
 						w.peers[i].Send(c10N4+":8805", (&sReq{Kind: kHB, Seq: uint32(1000 + int(t/time.Second))}).build(conns[i]).marshal())
 						for ; answered < len(w.peers[i].Inbox); answered++ {
